@@ -77,7 +77,7 @@ def random_schedule(rng, nthreads, length, ticks):
     return ",".join(sched[:length])
 
 
-def gen(chk, tier):
+def gen(chk, tier, light=False):
     rng = chk.rng
     quick = tier == "quick"
     streams = []
@@ -91,7 +91,7 @@ def gen(chk, tier):
     # (b) the same with clock ticks of 45 min between steps (calls covered by the refinement argument)
     cov = ["L0", "G0", "F:9:0"]
     items = [(init, [a, b]) for init in INITS.values() for i, a in enumerate(cov) for b in cov[i:]]
-    capt = 60 if quick else 3000
+    capt = (25 if light else 60) if quick else 3000
     tk = []
     for (init, progs), (_, scheds) in zip(items, enum_many(items, "all", 20000 if quick else 300000, tick="2700:3")):
         tk += [case_line(init, progs, s) for s in spread(scheds, capt)]
@@ -179,6 +179,103 @@ def monitor(case, impl):
     return None
 
 
+E_NORMAL, E_ERROR = 3600, 1200
+
+
+def monitor_miss(case, impl):
+    """C05 on the implementation's trace alone: Get2 must not answer (nil, nil) at once when at
+    EVERY instant of the call the key's entry was servable (loading, or complete and less than 2E
+    old).  Ages are upper bounds (a result completed during the run is taken to be stamped when its
+    worker's call began), so a report is never due to the approximation."""
+    if not impl.startswith("steps="):
+        return None
+    ops, m = prog_ops(case)
+    if m.get("keys", "1") != "1":
+        return None
+    progs = [[o for o in p.split(".") if o] for p in m.get("progs", "").split(";")]
+    clock = 0
+    stamp, err = {}, {}          # future id -> lower bound of its stamp, error code
+    nfut = 0
+    queue = []
+    # set-up
+    for o in [x for x in m.get("init", "").split(",") if x]:
+        if o[0] == "L":
+            pass
+        elif o[0] == "F":
+            _, v, e = o.split(":")
+            err["init%d" % len(err)] = int(e)
+        elif o[0] == "B":
+            f, age = o[1:].split(":")
+            stamp[int(f)] = stamp.get(int(f), 0) - int(age)
+    # futures completed in the set-up: first observation tells which are done; their error codes in order
+    toks = impl.split(" ")
+    steps = [x for x in toks[0][6:].split(";") if x]
+    sched = [x for x in m.get("sched", "").split(",") if x]
+    fin = [x for x in (toks[1][4:].split(";") if len(toks) > 1 else []) if x]
+    seq = list(zip(sched, steps)) + [tuple(x.split(":", 1)) for x in fin]
+    init_errs = [err[k] for k in sorted(err, key=lambda z: int(z[4:]))]
+    err = {}
+    pcidx = [0] * len(progs)
+    cur = [None] * len(progs)       # (op, clock at call start, index of first obs)
+    obs = []                         # (clock, entry or None, loading?, futs)
+    first = True
+
+    def parse(o):
+        parts = o.split("/")
+        ev = parts[0]
+        ent = parts[2][1:].split(".")[0] if len(parts) > 2 else "-"
+        futs = [x for x in parts[3].split(",")] if len(parts) > 3 and parts[3] else []
+        return ev, (None if ent == "-" else int(ent)), futs
+    known_done = set()
+    for k, (who, o) in enumerate(seq):
+        ev, ent, futs = parse(o)
+        if first:
+            first = False
+            done0 = [i for i, f in enumerate(futs) if f.startswith("1")]
+            # everything complete at the first observation was completed by the set-up (or by this very step: a Set)
+            for i, f in enumerate(done0):
+                stamp.setdefault(f, 0)
+                err[f] = init_errs[i] if i < len(init_errs) else 0
+                known_done.add(f)
+        if who.startswith("t"):
+            clock += int(who[1:])
+        else:
+            tid = int(who)
+            if tid < len(progs) and ev not in ("done", "blocked"):
+                if cur[tid] is None and pcidx[tid] < len(progs[tid]):
+                    cur[tid] = (progs[tid][pcidx[tid]], clock, max(0, len(obs) - 1))
+                for i, f in enumerate(futs):
+                    if f.startswith("1") and i not in known_done:
+                        known_done.add(i)
+                        op = cur[tid][0] if cur[tid] else "F:0:0"
+                        stamp[i] = cur[tid][1] if cur[tid] else clock
+                        err[i] = int(op.split(":")[2]) if op.count(":") == 2 else 0
+        obs.append((clock, ent, futs))
+        if not who.startswith("t"):
+            tid = int(who)
+            if tid < len(progs) and ev.startswith("r:") and cur[tid] is not None:
+                op, c0, i0 = cur[tid]
+                if op[0] == "G" and ev == "r:0:0":
+                    servable = True
+                    for (c, e, fs) in obs[i0:]:
+                        if e is None or e >= len(fs):
+                            servable = False
+                            break
+                        if fs[e].startswith("0"):
+                            continue
+                        ex = E_ERROR if err.get(e, 0) != 0 else E_NORMAL
+                        if e not in stamp or c - stamp[e] >= 2 * ex:
+                            servable = False
+                            break
+                    if servable and len(obs[i0:]) > 0:
+                        return ("get2-miss-while-servable",
+                                "step %d: Get2 of thread %d answered (nil, nil) at once although at every instant of the call "
+                                "the key had a loading entry or a result less than 2E old" % (k, tid))
+                cur[tid] = None
+                pcidx[tid] += 1
+    return None
+
+
 def nontrivial(case, model):
     _, m = prog_ops(case)
     tids = set(x for x in m.get("sched", "").split(",") if x and x[0] != "t")
@@ -199,7 +296,8 @@ def classify(case, model):
     return "tick-in-window"
 
 
-def run(chk, corpus):
+def run(chk, corpus, light=False):
+    """light = the part run by C05: corpus + tick interleavings, same comparison and monitors"""
     info = dict(status="run")
     chk.cov["call_steps"] = info
     if not hooks_present():
@@ -209,7 +307,7 @@ def run(chk, corpus):
     binary = build(chk)
     if not binary:
         return
-    streams = [("call-steps/corpus", corpus)] + gen(chk, chk.tier)
+    streams = [("call-steps/corpus", corpus)] + [x for x in gen(chk, chk.tier, light) if not light or "ticks" in x[0]]
     names, cases = [], []
     for name, cs in streams:
         names += [name] * len(cs)
@@ -231,7 +329,7 @@ def run(chk, corpus):
             chk.diverge(name, c, split_model(m)[0], i, note)
         else:
             chk.cov["traces_validated_against_impl"] += 1
-        mf = monitor(c, i)
+        mf = monitor(c, i) or monitor_miss(c, i)
         if mf is not None:
             chk.monitor_fail(mf[0], c, i, mf[1])
         v = classify(c, m)
